@@ -508,6 +508,14 @@ Theorem C03_base64_leaf_iff :
 Proof. exact denotes_bytes_base64_iff. Qed.
 Print Assumptions C03_base64_leaf_iff.
 
+Theorem C03_base64_address_iff :
+  forall (H : bytes -> bytes) (s : serializer) (z : Z) (j : jv),
+    ad s = None -> bs s = Base64ByteSerializer ->
+    (denotes_addr H s z j = true <->
+     exists t a, j = JStr t /\ base64_decode t = Some a /\ is_addr_of z a = true).
+Proof. exact denotes_addr_base64_iff. Qed.
+Print Assumptions C03_base64_address_iff.
+
 Theorem C03_base64_decoder_canonical :
   forall t b : bytes, base64_decode t = Some b <-> t = base64 b.
 Proof. exact base64_decode_iff. Qed.
